@@ -5,6 +5,7 @@ import re
 
 from ..common import Check, coq_eval, harness, load_findings
 from ..translate import gen_sites
+from . import c12_corr as CR
 from . import c12_streams as S
 from . import c12_strings as ST
 from .c12_run import probe
@@ -12,9 +13,10 @@ from .c12_run import probe
 TRUSTED = [
     "Coq 8.16.1 kernel (coqc, vm_compute); no axioms: every theorem is 'Closed under the global context'",
     "translator vplib/translate/gen_sites.py (regex/brace scanners over every library source file; counts per (file, kind) and text pins of the modelled functions; fail closed) and the recorded baseline coq/Model/SitesBaseline.v",
-    "Model/Checked.v restates Rust's debug-build semantics of + - * neg on i64/usize, slicing, unwrap, assert!; Model/RangeArith.v and Model/Span.v restate range_of_ranges, the LIMIT/OFFSET lines, IdGenerator, convert_lexer_error, composed by hand; they are run against the implementation on every run",
+    "Model/Checked.v restates Rust's debug-build semantics of + - * neg on i64/usize/u16, checked_*/saturating_*/unsigned_abs, slicing, unwrap, assert!; Model/RangeArith.v and Model/Span.v restate range_of_ranges, the LIMIT/OFFSET lines, IdGenerator::skip/gen/load, the constant folding of std.neg, the window frame bounds, convert_lexer_error, composed by hand; they are run against the implementation on every run (take_sql, id_load, frame_bounds, static_neg: streams corr-*)",
+    "Model/WidthArith.v (consume_width, reset_line, the widening loop of write_or_expand) and Model/ReviewedSites.v (guards of the sites added since the last baseline) restate private code that no entry point exposes: they are tied by the text pins of Gen/GenSites.v and by the probes (long tokens, depth 32800), not by an input/output comparison",
     "the harness: every entry point under catch_unwind in a thread with a fixed stack; process aborts and hangs observed by the parent with a wall-clock cap (harness/src/main.rs cmd_probe, vplib/props/c12_run.py)",
-    "RUNTIME FACTS NOT PROVED: stack depth, wall-clock time, allocation failure; chumsky, serde_json, sqlparser, sqlformat internals; the ~440 unwrap/expect/index sites outside the modelled functions are counted against a baseline, not proved unreachable",
+    "RUNTIME FACTS NOT PROVED: stack depth, wall-clock time (the polynomial bound of the parser and of the formatter after e945e0b / c8b3817 is MEASURED: directed depths 30..1000 under the cap, growth at n, 2n, 4n), allocation failure; chumsky, serde_json, sqlparser, sqlformat internals; that the formatter's layout succeeds at the unlimited width (hypothesis of c12_write_or_expand_terminates); the ~440 unwrap/expect/index sites outside the modelled functions are counted against a baseline, not proved unreachable",
 ]
 
 LINEAR_FAMILIES = ("paren", "negparen", "call", "case", "fstring-holes", "comments", "newlines", "close-paren", "quotes-open", "dots", "at", "func-curry")
@@ -69,22 +71,15 @@ def json_ints(text):
     return [int(x) for x in re.findall(r"(?<![\w.\"])-?\d+(?![\w.\"])", text)]
 
 
+# input predicates of the OPEN findings only (the predicates of fixed findings were removed with the fix: nothing can
+# be classified as F7 F15 F29 N1 N2 N5 N6 N7 N8 N9 N10 N11 H1 H2 any more)
 PRED = {
-    "huge-int-literal": lambda c: has_huge_int(c["src"]),
     "non-ascii-source": lambda c: any(ord(ch) > 127 for ch in c["src"]),
-    "set-operation": lambda c: any(w in c["src"] for w in ("append", "union", "remove", "intersect")) or any(w in (c.get("prog") or "") for w in ("append", "union", "remove", "intersect")),
-    "take-before-aggregate": lambda c: all(w in ((c.get("prog") or "") + c["src"]) for w in ("take",)) and any(w in ((c.get("prog") or "") + c["src"]) for w in ("group", "aggregate", "Aggregate")),
-    "bare-star": lambda c: re.search(r"(?<!\.)\*", c["src"]) is not None,
-    "aliased-tuple-to-noresolve": lambda c: re.search(r"(\bas\b|side\s*:|format\s*:|noresolve)[^{}]*\{[^}]*=", c["src"], re.S) is not None or c["entry"] == "json_pl",
-    "very-long-token": lambda c: max((len(x) for x in re.split(r"\s+", c["src"])), default=0) >= 20000,
-    "redshift-or-unknown-operator": lambda c: (c.get("target") == "sql.redshift" and "to_text" in ((c.get("prog") or "") + c["src"])) or c.get("family", "").startswith("json:"),
     "mutated-rq-json": lambda c: c["entry"] == "json_rq" and c.get("family", "").startswith("json:") and c.get("family") not in ("json:orig", "json:int:lit"),
     "mutated-pl-json": lambda c: c["entry"] == "json_pl" and c.get("family", "").startswith("json:") and c.get("family") not in ("json:orig", "json:int:lit"),
-    "i64-min-literal": lambda c: "-9223372036854775808" in c["src"],
-    "usize-max-id": lambda c: any(v >= 18446744073709551614 for v in json_ints(c["src"])) if c["entry"].startswith("json") else False,
     "deep-or-long": lambda c: True,   # refined by thresholds below
-    "unclosed-parens": lambda c: c["src"].count("(") - c["src"].count(")") >= 12,
-    "deep-brackets": lambda c: bracket_depth(c["src"]) >= 12,
+    # c12_reset_line_panics_above / _partial: tab.len() * indent overflows u16 exactly from indent 32768 on
+    "indent-32768": lambda c: bracket_depth(c["src"]) >= 32768,
 }
 
 
@@ -99,7 +94,7 @@ def make_classifier(findings):
             for fd in fs:
                 for s in fd.get("sites", []):
                     if re.match(s["file"] + "$", f) and msg.startswith(s["msg"]) and case["entry"] in s["entries"]:
-                        if PRED[fd["pred"]](case):
+                        if fd.get("pred") in PRED and PRED[fd["pred"]](case):
                             return fd["id"]
             return None
         if "abort" in a:
@@ -117,7 +112,7 @@ def make_classifier(findings):
             return None
         if "hang" in a or case.get("slow"):
             for fd in fs:
-                if fd.get("hang") and case["entry"] in fd.get("entries", []) and PRED[fd["pred"]](case):
+                if fd.get("hang") and case["entry"] in fd.get("entries", []) and fd.get("pred") in PRED and PRED[fd["pred"]](case):
                     return fd["id"]
             return None
         return None
@@ -311,6 +306,9 @@ def run():
     # 1. modelled arithmetic vs implementation (Tie B) + SQLite backstop
     range_correspondence(ck, model_ok)
     json_take_correspondence(ck, model_ok)
+    CR.id_correspondence(ck)
+    CR.frame_correspondence(ck)
+    CR.neg_correspondence(ck)
 
     # 2. probe streams
     progs = S.all_programs()
@@ -346,8 +344,6 @@ def run():
                 continue
             if d > 1500 and fam not in LINEAR_FAMILIES:
                 continue            # quadratic in the depth: tens of seconds at 5000 on a shared machine
-            if fam == "open-paren" and d > 10:
-                continue            # exponential parse time (finding H1): probed separately below
             if fam in ("group", "loop") and d > 100:
                 continue            # cubic: seconds at depth 400
             s = mk(d)
@@ -359,16 +355,11 @@ def run():
         if not ck.thorough and fam in ("negparen", "notparen", "case", "call"):
             for st in (64, 8):
                 cases.append({"entry": "compile", "src": mk(1400), "stack_mb": st, "family": "nest:%s:%d" % (fam, 1400), "prog": None, "target": "sql.generic"})
-        # the formatter is exponential in the nesting depth (finding H2): shallow depths only, one deep case
-        fd = [8, 18] if not ck.thorough else [8, 18, 26]
-        if fam in ("pipe-in-paren", "case"):
-            fd = fd + [32]
-        for d in fd:
+        # the formatter (finding H2, exponential in the nesting depth, was fixed by c8b3817): every family, deep
+        for d in ([8, 18, 32, 100] if not ck.thorough else [8, 18, 32, 100, 400]):
             cases.append({"entry": "fmt", "src": mk(d), "stack_mb": 64, "family": "nest:%s:%d" % (fam, d), "prog": None})
-    for d in ([14, 30] if not ck.thorough else [14, 22, 30, 40]):
-        for e in ("pl", "compile"):
-            cases.append({"entry": e, "src": S.NEST["open-paren"](d), "stack_mb": 64, "family": "nest:open-paren:%d" % d, "prog": None,
-                          **({"target": "sql.generic"} if e == "compile" else {})})
+    # replays of the findings fixed since b55902d (H1 H2 N5 N6 N7; a recurrence is a VIOLATION) and of the open C12-N12
+    cases += CR.directed_cases(ck)
 
     # 4. PL / RQ JSON: originals, single mutations, raw documents
     pl = harness("pl", [{"src": p} for p in progs])
@@ -382,17 +373,6 @@ def run():
         if "ok" in a:
             for fam, j in [("json:orig", json.dumps(a["ok"]))] + S.json_mutants(rng, a["ok"], kj):
                 cases.append({"entry": "json_rq", "src": j, "stack_mb": 64, "family": fam, "prog": p, "target": rng.choice(DIALECTS)})
-    # fixed documents of recorded findings (N6: ids of usize::MAX; N5: i64::MIN under a negation)
-    b5 = harness("rq", [{"src": "from t | take 5"}])[0]
-    if "ok" in b5:
-        d5 = copy.deepcopy(b5["ok"])
-        d5["tables"][0]["id"] = 18446744073709551615
-        d5["relation"]["kind"]["Pipeline"][0]["From"]["source"] = 18446744073709551615
-        cases.append({"entry": "json_rq", "src": json.dumps(d5), "stack_mb": 64, "family": "json:int:id", "prog": "from t | take 5", "target": "sql.generic"})
-    w5 = harness("pl", [{"src": "from t | window rows:-1..1 (derive {s = sum b})"}])[0]
-    if "ok" in w5:
-        txt = json.dumps(w5["ok"]).replace('{"Unary": {"expr": {"Literal": {"Integer": 1}', '{"Unary": {"expr": {"Literal": {"Integer": -9223372036854775808}')
-        cases.append({"entry": "json_pl", "src": txt, "stack_mb": 64, "family": "json:int:lit", "prog": "from t | window rows:-1..1 (derive {s = sum b})"})
     for fam, j in S.json_raw(rng):
         for e in ("json_pl", "json_rq"):
             cases.append({"entry": e, "src": j, "stack_mb": 64, "family": fam, "prog": None})
@@ -439,33 +419,33 @@ def run():
     base_n = ck.n(40, 100)
     greqs, gmeta = [], []
     for fam, mk in S.NEST.items():
-        if fam == "open-paren":
-            continue                # finding H1, probed in stream 3
-        for k in (1, 2, 4):
-            greqs.append({"entry": "compile", "src": mk(base_n * k), "stack_mb": 64, "target": "sql.generic"})
-            gmeta.append((fam, k))
+        ents = ["compile", "fmt"] + (["pl"] if fam.startswith("open-") or fam in ("quotes-open", "close-paren") else [])
+        for e in ents:
+            for k in (1, 2, 4):
+                greqs.append({"entry": e, "src": mk(base_n * k), "stack_mb": 64, **({"target": "sql.generic"} if e == "compile" else {})})
+                gmeta.append((fam, k, e))
     gans = probe(greqs, cap_ms=ck.n(20000, 60000))
     times = {}
-    for (fam, k), a, rq_ in zip(gmeta, gans, greqs):
-        ck.count("growth", fam + ":%d" % (base_n * k))
+    for (fam, k, e), a, rq_ in zip(gmeta, gans, greqs):
+        ck.count("growth", "%s:%s:%d" % (e, fam, base_n * k))
         if "hang" in a:
-            gc = {"entry": "compile", "src": rq_["src"], "stack_mb": 64, "family": "growth:" + fam, "answer": a}
-            ck.disagreement("no answer within %d ms for family %s at size %d" % (a["hang"], fam, base_n * k),
-                            {"family": fam, "n": base_n * k, "src": rq_["src"][:3000], "entry": "compile"}, lambda _x, gc=gc: classify(gc))
+            gc = {"entry": e, "src": rq_["src"], "stack_mb": 64, "family": "growth:" + fam, "answer": a}
+            ck.disagreement("no answer within %d ms for family %s at size %d [entry %s]" % (a["hang"], fam, base_n * k, e),
+                            {"family": fam, "n": base_n * k, "src": rq_["src"][:3000], "entry": e}, lambda _x, gc=gc: classify(gc))
             continue
         if "abort" in a:
-            gc = {"entry": "compile", "src": rq_["src"], "stack_mb": 64, "family": "growth:" + fam, "answer": a}
-            ck.disagreement("process abort for family %s at size %d" % (fam, base_n * k),
-                            {"family": fam, "n": base_n * k, "src": rq_["src"][:3000], "entry": "compile", "stderr": a.get("stderr", "")[-200:]}, lambda _x, gc=gc: classify(gc))
+            gc = {"entry": e, "src": rq_["src"], "stack_mb": 64, "family": "growth:" + fam, "answer": a}
+            ck.disagreement("process abort for family %s at size %d [entry %s]" % (fam, base_n * k, e),
+                            {"family": fam, "n": base_n * k, "src": rq_["src"][:3000], "entry": e, "stderr": a.get("stderr", "")[-200:]}, lambda _x, gc=gc: classify(gc))
             continue
-        times.setdefault(fam, {})[k] = a.get("ms") if "ms" in a else None
+        times.setdefault((fam, e), {})[k] = a.get("ms") if "ms" in a else None
     growth = {}
-    for fam, t in times.items():
+    for (fam, e), t in times.items():
         if all(t.get(k) is not None for k in (1, 2, 4)):
-            growth[fam] = [t[1], t[2], t[4]]
+            growth["%s:%s" % (e, fam)] = [t[1], t[2], t[4]]
             if t[4] >= 3000 and t[2] > 0 and t[4] / max(t[2], 1) > 16 and t[2] / max(t[1], 1) > 8:
-                ck.violation("time grows faster than any small polynomial for family %s: %s ms at n, 2n, 4n (n = %d)" % (fam, growth[fam], base_n),
-                             {"family": fam, "n": base_n, "ms": growth[fam], "src": S.NEST[fam](base_n)[:3000], "entry": "compile"})
+                ck.violation("time grows faster than any small polynomial for family %s on %s: %s ms at n, 2n, 4n (n = %d)" % (fam, e, [t[1], t[2], t[4]], base_n),
+                             {"family": fam, "n": base_n, "ms": [t[1], t[2], t[4]], "src": S.NEST[fam](base_n)[:3000], "entry": e})
     ck.coverage["growth_ms_at_n_2n_4n"] = growth
 
     # evidence: which sites were seen
